@@ -124,6 +124,12 @@ def check(ctx, rep):
     futc = prog.cls("_Future")
     trans_rule(ctx, rep, [c for c in prog.subclasses(futc, strict=True)], roles.proto(ctx).dispatch, roles.proto(ctx).lock)
     snapshot_rule(ctx, rep)
+    # a callback registered while the inner future completes must not be lost (shared with C02), and the flat-map
+    # layer must deliver the returned future's own outcome (shared with C13)
+    from .c02 import addcb_rule
+    from .c13 import flatten_rule
+    addcb_rule(ctx, rep)
+    flatten_rule(ctx, rep)
 
 
 def _inline_policy(ci, records=()):
